@@ -303,7 +303,7 @@ func (fv *FuncVC) doAlloc(a *ssa.Alloc) {
 	addr.T = a.Type()
 	fv.vals[a] = addr
 	// zero-initialise
-	switch et.Underlying().(type) {
+	switch under(et).(type) {
 	case *types.Array:
 		// arrays of scalars: element heap zeroed lazily is not modelled; contents unknown.
 		// (varargs / slicelit arrays are written before use.)
@@ -408,6 +408,10 @@ func (fv *FuncVC) load(addr ssa.Value, pos token.Pos) Term {
 	var v Term
 	if fv.isRaw(addr) {
 		v = fv.rawLoad(fv.heap(fv.cur, "M", SInt), a, et)
+		if fv.TE.SortOf(et) == SBool {
+			// A-BOOL: a Go bool in memory is the byte 0 or 1
+			fv.assumeHere(le(sel(fv.heap(fv.cur, "M", SInt), a), intLit(1)))
+		}
 	} else if fa, ok := addr.(*ssa.FieldAddr); ok {
 		st := fa.X.Type().Underlying().(*types.Pointer).Elem()
 		si := fv.TE.StructInfo(st)
@@ -545,7 +549,7 @@ func (fv *FuncVC) fieldAddr(x *ssa.FieldAddr) {
 // address of a scalar field/element is only loaded from or stored to.
 func (fv *FuncVC) checkAddrUse(v ssa.Value) {
 	et := v.Type().Underlying().(*types.Pointer).Elem()
-	switch et.Underlying().(type) {
+	switch under(et).(type) {
 	case *types.Struct, *types.Array:
 		return
 	}
@@ -584,7 +588,7 @@ func (fv *FuncVC) indexAddr(x *ssa.IndexAddr) {
 		return
 	}
 	i := fv.val(x.Index)
-	switch u := x.X.Type().Underlying().(type) {
+	switch u := under(x.X.Type()).(type) {
 	case *types.Slice:
 		s := fv.val(x.X)
 		if s.Sort == SBSeq {
